@@ -403,6 +403,18 @@ class C11Session(Session):
                 if short:
                     return ("observer.describe", f"describe() names fewer members than children_all has "
                             f"({n_all}): {short}")
+            # the container protocol of a collection is another view of its children (documented: iterating,
+            # indexing and len() go over `children`)
+            try:
+                kids = list(c.children)
+                seen = list(iter(c))
+                n = len(c)
+                idx = [c[j] for j in range(len(kids))] + ([c[-1]] if kids else [])
+            except Exception as e:
+                return ("observer.container", f"iter/len/[] raised {type(e).__name__} on a consistent forest")
+            if n != len(kids) or len(seen) != len(kids) or any(a is not b for a, b in zip(seen, kids)) or \
+                    any(a is not b for a, b in zip(idx, kids + kids[-1:])):
+                return ("observer.container", "iter(coll) / len(coll) / coll[i] disagree with coll.children")
         if forest_digest(world) != before:
             return ("observer.mutates", "describe()/children_all changed the forest")
         return None
